@@ -60,3 +60,15 @@ void drv_conv_vp_ctor(CONV_VP *out, c18_ctx0 *c) { new(out) CONV_VP(c); }
 extern "C" {
 void drv_cb_shift(CB *f, c18_factory *fn) { (*f) << std::move(*fn); }
 }
+// ---- MOVE-ONLY payload (drivers/c09_mo_item.h): the helper of make_promise and a converter whose source AND result are move-only objects
+#include "c09_mo_item.h"
+struct c18_cbm { void operator()(future<mo_item> &f); int tag; };           // completion callback of make_promise<mo_item>
+struct c18_ctxm { mo_item conv(mo_item &v); int tag; };                     // converter mo_item -> mo_item
+using CBM = future_with_cb<mo_item, c18_cbm>;
+using CONV_MM = future_conv<&c18_ctxm::conv>;
+extern "C" {
+void drv_cbm_ctor(CBM *out, c18_cbm *fn) { new(out) CBM(std::move(*fn)); }
+void drv_make_promise_mo(promise<mo_item> *out, c18_cbm *fn) { new(out) promise<mo_item>(make_promise<mo_item>(std::move(*fn))); }
+void drv_conv_mm_ctor(CONV_MM *out, c18_ctxm *c) { new(out) CONV_MM(c); }
+void drv_mo_make(mo_item *out, int t) { new(out) mo_item(t); }
+}
